@@ -83,6 +83,7 @@ func plan(tier string, seed int64) []driver.Case {
 	}
 	cases = append(cases, sharedPlan(tier)...)
 	cases = append(cases, twicePlan(tier)...)
+	cases = append(cases, rotationPlan(tier)...)
 	return cases
 }
 
@@ -422,6 +423,9 @@ func runCase(c driver.Case) driver.Result {
 	}
 	if c.Get("kind") == "twice" {
 		return runTwice(c)
+	}
+	if c.Get("kind") == "rotation" {
+		return runRotation(c)
 	}
 	rec.ResetHooks()
 	hookReset()
